@@ -191,6 +191,41 @@ pub fn content_of_model(m: &Model) -> Content {
     }
 }
 
+/// Reorder resources and datasets (new position i holds the old item `res_order[i]` / `set_order[i]`) and
+/// remap the ordinals inside annotations accordingly.
+pub fn permute(c: &Content, res_order: &[usize], set_order: &[usize]) -> Content {
+    let rmap = |old: usize| res_order.iter().position(|x| *x == old).unwrap_or(usize::MAX);
+    let smap = |old: usize| set_order.iter().position(|x| *x == old).unwrap_or(usize::MAX);
+    fn map(s: &MSel, rmap: &dyn Fn(usize) -> usize, smap: &dyn Fn(usize) -> usize) -> MSel {
+        match s {
+            MSel::Text { res, begin, end, mode } => MSel::Text { res: rmap(*res), begin: *begin, end: *end, mode: *mode },
+            MSel::Ann { ann, text } => MSel::Ann { ann: *ann, text: text.map(|(r, b, e, m)| (rmap(r), b, e, m)) },
+            MSel::Res(r) => MSel::Res(rmap(*r)),
+            MSel::Set(x) => MSel::Set(smap(*x)),
+            MSel::Key(x, k) => MSel::Key(smap(*x), *k),
+            MSel::Data(x, d) => MSel::Data(smap(*x), *d),
+            MSel::Multi(v) => MSel::Multi(v.iter().map(|x| map(x, rmap, smap)).collect()),
+            MSel::Composite(v) => MSel::Composite(v.iter().map(|x| map(x, rmap, smap)).collect()),
+            MSel::Directional(v) => MSel::Directional(v.iter().map(|x| map(x, rmap, smap)).collect()),
+        }
+    }
+    Content {
+        resources: res_order.iter().map(|i| c.resources[*i].clone()).collect(),
+        sets: set_order.iter().map(|i| c.sets[*i].clone()).collect(),
+        anns: c
+            .anns
+            .iter()
+            .map(|a| CAnn {
+                id: a.id.clone(),
+                target: map(&a.target, &rmap, &smap),
+                data: a.data.iter().map(|(s_, d)| (smap(*s_), *d)).collect(),
+                text: a.text.clone(),
+                ranged: a.ranged,
+            })
+            .collect(),
+    }
+}
+
 fn strip(s: &MSel) -> MSel {
     strip_modes(s)
 }
@@ -298,7 +333,17 @@ pub fn compare(a: &Content, b: &Content, typed: bool, value_text: &dyn Fn(&Val) 
             if x.data != y.data {
                 v.push(("annotation.data".to_string(), "refs".to_string(), format!("annotation {} data {:?} became {:?}", i, x.data, y.data)));
             }
-            if x.text != y.text {
+            let text_equal = if matches!(x.target, MSel::Multi(_) | MSel::Composite(_)) {
+                // textual order is only defined per resource: compare the pieces as a multiset
+                let mut a = x.text.clone();
+                let mut b = y.text.clone();
+                a.sort();
+                b.sort();
+                a == b
+            } else {
+                x.text == y.text
+            };
+            if !text_equal {
                 v.push(("annotation.text".to_string(), kind.to_string(), format!("annotation {} text {:?} became {:?}", i, x.text, y.text)));
             }
         }
